@@ -70,6 +70,7 @@ def run(ctx):
     ctx.rule("R11.1", "RECOGNISERS: checker and scanner dispatch on the same first characters, and their default: chains test the same token classes in the same order (identical spelling, or agreement on every probe string)")
     ctx.rule("R11.2", "KEYWORDS: true/false/nil/inf/now/immediately map to the same tag in checker and scanner")
     ctx.rule("R11.4", "SSCANF-ATOMIC: when the scanner decides an optional part by a sscanf with two or more assigning conversions (its %n result is tested afterwards), the converted values are read only under that test - a partial match must not leak into the result")
+    ctx.rule("R11.5", "TYPES-MATCH: the element-type compatibility relation used by checker and scanner (types_match / arraytypes_match), evaluated over all tag pairs, is reflexive and symmetric and relates T with F")
     ctx.rule("R11.3", "COMMENTS: the four entry loops skip white space and comments introduced by '%' up to the end of the line")
     chk = u.function("rtosc_skip_next_printed_arg")
     scn = u.function("rtosc_scan_arg_val")
@@ -145,6 +146,26 @@ def run(ctx):
                    key="R11.3:%s#%d" % (q, k),
                    what="%s does not skip every run of white space and %%-comments: e.g. on %r it stops at %s instead of %s" % (q, bad[0]["text"] if bad else "", bad[0]["stops_at"] if bad else "", bad[0]["expected"] if bad else ""))
     ctx.require(nruns >= 5, "R11.3: only %d separator-skipping sites found" % nruns)
+
+    # ---- R11.5
+    import itertools
+    for q in ("types_match", "arraytypes_match"):
+        fq = u.function(q)
+        tags = sorted(set("ifsbhtdScrmTFNI-a"))
+        tab = {}
+        try:
+            for a_, b_ in itertools.product(tags, tags):
+                def call(name, args, n_):
+                    f2 = u.function(name)
+                    return FD.Eval(call=call).call_function(u, f2, args)
+                tab[(a_, b_)] = 1 if FD.Eval(call=call).call_function(u, fq, [ord(a_), ord(b_)]) else 0
+        except FD.Unknown as e:
+            raise AnalysisBroken("R11.5: %s not evaluable: %s" % (q, e))
+        asym = sorted(k for k in tab if tab[k] != tab[(k[1], k[0])])
+        irr = [t for t in tags if not tab[(t, t)]]
+        tf = tab[("T", "F")] and tab[("F", "T")]
+        ctx.ob("R11.5", q, not asym and not irr and bool(tf), site=A.where(fq), detail={"pairs": len(tab), "asymmetric": ["%s/%s" % k for k in asym[:8]], "irreflexive": irr, "T~F": bool(tf)},
+               what="%s is not a symmetric, reflexive relation with T~F: asymmetric on %s" % (q, ["%s/%s" % k for k in asym[:4]]))
 
     # ---- R11.4
     n4 = 0
